@@ -95,19 +95,24 @@ Definition sort_z (l : list Z) : list Z := fold_right insert_z [] l.
 
 (** S(l): the instants whose wall clock reads l, ascending.  t = l - o for an offset o the zone
     uses, and the zone is at offset o at that instant. *)
-Definition instants_of_wall (z : szone) (l : Z) : list Z :=
+Definition instants_of_wall_among (offs : list Z) (z : szone) (l : Z) : list Z :=
   sort_z (dedup (flat_map (fun o => match zone_off z (l - o) with
                                     | Some o' => if o' =? o then [l - o] else []
-                                    | None => [] end) (zone_offsets z))).
+                                    | None => [] end) offs)).
+Definition instants_of_wall (z : szone) (l : Z) : list Z :=
+  instants_of_wall_among (zone_offsets z) z l.
 
 (** the wall-clock seconds about which the property makes no claim: the second that ends a skipped
     or repeated interval (T + max(before, after)) and the first second of a skipped interval
-    (T + before when after > before; "strictly inside" excludes it) *)
+    (T + before when after > before; "strictly inside" excludes it).  A transition that leaves the
+    offset unchanged (abbreviation / DST flag only) skips and repeats nothing: no second is
+    excepted there (the property names these transitions explicitly). *)
 Fixpoint excepted_table (tr : list (Z * Z)) (cur l : Z) : bool :=
   match tr with
   | [] => false
   | (ti, o) :: rest =>
-      (l =? ti + Z.max cur o) || ((cur <? o) && (l =? ti + cur)) || excepted_table rest o l
+      (negb (cur =? o) && (l =? ti + Z.max cur o)) || ((cur <? o) && (l =? ti + cur))
+      || excepted_table rest o l
   end.
 Definition excepted_rule (r : Z + srule) (l : Z) : bool :=
   match r with
@@ -117,10 +122,34 @@ Definition excepted_rule (r : Z + srule) (l : Z) : bool :=
       existsb (fun yy =>
         let s := rule_start_utc a yy in let e := rule_end_utc a yy in
         (* start: std -> dst ; end: dst -> std *)
-        (l =? s + Z.max (r_std a) (r_dst a)) || ((r_std a <? r_dst a) && (l =? s + r_std a)) ||
-        (l =? e + Z.max (r_std a) (r_dst a)) || ((r_dst a <? r_std a) && (l =? e + r_dst a)))
+        negb (r_std a =? r_dst a) &&
+        ((l =? s + Z.max (r_std a) (r_dst a)) || ((r_std a <? r_dst a) && (l =? s + r_std a)) ||
+         (l =? e + Z.max (r_std a) (r_dst a)) || ((r_dst a <? r_std a) && (l =? e + r_dst a))))
         [y - 2; y - 1; y; y + 1; y + 2]
   end.
 Definition excepted_wall (z : szone) (l : Z) : bool :=
   excepted_table (z_trans z) (z_first z) l ||
   match z_rule z with Some r => excepted_rule r l | None => false end.
+
+(** ** Well-formedness and spacing of a transition table (decidable; used by the judges to
+    delimit domains and by the theorems as hypotheses) *)
+Fixpoint increasing (l : list (Z * Z)) : bool :=
+  match l with
+  | (a, _) :: (((b, _) :: _) as r) => (a <? b) && increasing r
+  | _ => true
+  end.
+
+(** the spacing condition: the wall-clock windows of the transitions,
+    [T + min(before, after), T + max(before, after)], are pairwise disjoint and in the order of
+    the transitions (transitions are further apart than the offsets change) *)
+Fixpoint windows (tr : list (Z * Z)) (cur : Z) : list (Z * Z) :=
+  match tr with
+  | [] => []
+  | (t, o) :: rest => (t + Z.min cur o, t + Z.max cur o) :: windows rest o
+  end.
+Fixpoint ordered (ws : list (Z * Z)) : bool :=
+  match ws with
+  | (_, hi) :: (((lo, _) :: _) as rest) => (hi <? lo) && ordered rest
+  | _ => true
+  end.
+Definition spacing_table (tr : list (Z * Z)) (cur : Z) : bool := ordered (windows tr cur).
